@@ -69,7 +69,9 @@ extern "C" void __sanitizer_set_death_callback(void (*)(void));
 static bool g_deathReported = false;
 static void on_sanitizer_death() { if (!g_deathReported) { g_deathReported = true; crash_line("SANITIZER", 0); } }
 #endif
-extern "C" __attribute__((used)) const char *__asan_default_options() { return "exitcode=77:detect_leaks=0:abort_on_error=0:allocator_may_return_null=1"; }
+// quarantine_size_mb: the default 256 MB per worker makes 16 workers fault in fresh pages all the time (a quarter of the CPU time was
+// system time, several times more on a freshly restored VM); 16 MB still holds the frees of thousands of runs
+extern "C" __attribute__((used)) const char *__asan_default_options() { return "exitcode=77:detect_leaks=0:abort_on_error=0:allocator_may_return_null=1:quarantine_size_mb=16"; }
 extern "C" __attribute__((used)) const char *__ubsan_default_options() { return "halt_on_error=1:exitcode=77:print_stacktrace=0"; }
 
 static void install_handlers() {
